@@ -229,9 +229,15 @@ def register(T, repo):
     lp = c.loop(0)
 
     def nc_body(E0, E1):
+        # stated for the abstraction: an iteration that ends normally has
+        # seen no argument reference out of range -- whether the loop runs
+        # over the references only or over all tokens of the body
         a = E0['a']
-        return And(zint(tm.tfield(a, 'arg', 0)) >= 1,
-                   zint(tm.tfield(a, 'arg', 0)) <= zint(E0['nargs']))
+        o = a.obj if isinstance(a, Opt) else a
+        isref = tm.cls_is(E0['$ex'], o, 'yalafi.defs.ArgumentToken')
+        return Implies(isref, And(
+            zint(tm.tfield(o, 'arg', 0)) >= 1,
+            zint(tm.tfield(o, 'arg', 0)) <= zint(E0['nargs'])))
     lp.body_post.append(('reference-in-range', nc_body))
 
     def nc_exit(E, st):
